@@ -7,7 +7,8 @@ One command per line, tokens separated by single spaces, bytes as lower-case hex
   new <verhex>                      fresh journal (file did not exist), APP_VERSION bytes given
   load <filehex> <meta|none> [<jthex>]   open an arbitrary disk image (optional left-over `<journal>.tmp`;
                                     the APP_VERSION of the last `new` is kept)
-  add <idx> <term> <cmdhex> | clear | delfrom <n> | delto <n> | setci <v> | timer | reopen
+  add <idx> <term> <cmdhex> | clear | delfrom <n> | delto <n> | setci <v> | timer | reopen | settv
+                                    (`settv` = `setTermAndVote(term, vote)`; the values are not modelled)
                                     -> `ok <summary> P <prims>`  or  `err <kind>` (state unchanged)
   img                               -> hex of the journal file
   ents                              -> `idx:term:len:adler,...` of the cached entry list
@@ -104,6 +105,7 @@ def parseOp : List String → Option Op
   | ["setci", v] => v.toNat?.map .setCommit
   | ["timer"] => some .timer
   | ["reopen"] => some .reopen
+  | ["settv"] => some .setTermVote
   | _ => none
 
 def opPrims (j : FJ) (op : Op) : List Prim :=
